@@ -110,7 +110,16 @@ class InternalCompiler(Compiler):
         """Compile a boolean expression, return the result qubit"""
 
         # 1. If we have a constant expression, create if needed and return a constant qubit
-        if isinstance(expr, BooleanFalse):
+        if isinstance(expr, (BooleanFalse, BooleanTrue)) and (
+            sym is not None and sym.name.startswith("_ret")
+        ):
+            # a constant return bit gets its own qubit: the shared constant qubits are read by other
+            # expressions and must not be an output
+            iret = qc.add_qubit(sym.name)
+            if isinstance(expr, BooleanTrue):
+                qc.x(iret)
+            return iret
+        elif isinstance(expr, BooleanFalse):
             if "FALSE" not in qc:
                 qc.add_qubit("FALSE")
             return qc["FALSE"]
